@@ -42,10 +42,42 @@ type spec struct {
 	client  int // 0 ws.Dialer, 1 wsutil.DebugDialer
 	traffic int // 0 helpers, 1 Reader + GetWriter/PutWriter echo, 2 compressed frames via wsflate.Helper, 3 compressed writer/reader stack
 	nmsg    int
+	// fault: 0 none; 1 every client-side connection write fails from message faultAt on; 2 the same on the
+	// server side. A failed session hands its writers/buffers back to the shared pools like any other; what
+	// is checked is that the OTHER sessions do not notice. Error texts of a faulty session are normalised
+	// (which of EOF / closed pipe the surviving peer sees is a race of the harness, not of the library).
+	fault   int
+	faultAt int
+}
+
+var errInjectedFault = fmt.Errorf("c19: injected connection write fault")
+
+type faultConn struct {
+	net.Conn
+	mu    sync.Mutex
+	armed bool
+}
+
+func (f *faultConn) arm() { f.mu.Lock(); f.armed = true; f.mu.Unlock() }
+func (f *faultConn) Write(p []byte) (int, error) {
+	f.mu.Lock()
+	a := f.armed
+	f.mu.Unlock()
+	if a {
+		return 0, errInjectedFault
+	}
+	return f.Conn.Write(p)
+}
+
+func errText(s spec, err error) string {
+	if s.fault != 0 {
+		return "(session with an injected fault)"
+	}
+	return fmt.Sprint(err)
 }
 
 func (s spec) String() string {
-	return fmt.Sprintf("session %d: server=%d client=%d traffic=%d nmsg=%d seed=%d", s.id, s.server, s.client, s.traffic, s.nmsg, s.seed)
+	return fmt.Sprintf("session %d: server=%d client=%d traffic=%d nmsg=%d seed=%d fault=%d@%d", s.id, s.server, s.client, s.traffic, s.nmsg, s.seed, s.fault, s.faultAt)
 }
 
 var sizeClasses = []int{0, 1, 100, 127, 128, 129, 255, 256, 4095, 4096, 4097, 65535, 65536, 65537, 100000}
@@ -95,7 +127,12 @@ func serve(s spec, conn net.Conn, hs ws.Handshake, herr error, t *transcript) {
 		return
 	}
 	st := ws.StateServerSide
-	for {
+	fc := &faultConn{Conn: conn}
+	conn = fc
+	for mi := 0; ; mi++ {
+		if s.fault == 2 && mi == s.faultAt {
+			fc.arm()
+		}
 		var payload []byte
 		var op ws.OpCode
 		var err error
@@ -201,7 +238,7 @@ func serve(s spec, conn net.Conn, hs ws.Handshake, herr error, t *transcript) {
 			if ce, ok := err.(wsutil.ClosedError); ok {
 				t.add("S closed code=%d reason=%q", ce.Code, ce.Reason)
 			} else {
-				t.add("S error %v", err)
+				t.add("S error %s", errText(s, err))
 			}
 			return
 		}
@@ -341,7 +378,12 @@ func runSession(s spec) *transcript {
 		ws.PutReader(br)
 	}
 	st := ws.StateClientSide
+	cfc := &faultConn{Conn: conn}
+	conn = cfc
 	for i := 0; i < s.nmsg; i++ {
+		if s.fault == 1 && i == s.faultAt {
+			cfc.arm()
+		}
 		p := payloadOf(s, i)
 		op := []ws.OpCode{ws.OpText, ws.OpBinary}[i%2]
 		if i%2 == 1 {
@@ -476,7 +518,7 @@ func runSession(s spec) *transcript {
 		t.add("C echo %d op=%x %s ok=%v", i, gop, sum(got), ok)
 	}
 	if err != nil {
-		t.add("C error %v", err)
+		t.add("C error %s", errText(s, err))
 		conn.Close()
 		<-sdone
 		return t
@@ -491,7 +533,7 @@ func runSession(s spec) *transcript {
 		code, reason := ws.ParseCloseFrameData(f.Payload)
 		t.add("C close-echo code=%d reason=%q", code, reason)
 	} else {
-		t.add("C close error %v", err)
+		t.add("C close error %s", errText(s, err))
 	}
 	conn.Close()
 	<-sdone
@@ -566,6 +608,10 @@ func specsFor(c *mon.C, n int, mix int) []spec {
 		case 3: // everything
 			s.server, s.client, s.traffic = i%2, (i/2)%2, i%4
 		}
+		if i%5 == 3 && n > 4 { // one session in five breaks half way
+			s.fault = 1 + (i/5)%2
+			s.faultAt = 1 + int(s.seed)%(s.nmsg-1)
+		}
 		out = append(out, s)
 	}
 	return out
@@ -596,7 +642,7 @@ func subSessions() mon.Sub {
 			pool.Configure(true, pool.ReuseLIFO, false, true)
 			alone := make([]*transcript, n)
 			for i, s := range specs {
-				k := fmt.Sprintf("%d/%d/%d/%d/%d", s.seed, s.server, s.client, s.traffic, s.nmsg) + fmt.Sprint(s.id%2, s.id)
+				k := fmt.Sprintf("%d/%d/%d/%d/%d/%d@%d", s.seed, s.server, s.client, s.traffic, s.nmsg, s.fault, s.faultAt) + fmt.Sprint(s.id%2, s.id)
 				baseMu.Lock()
 				b := baseline[k]
 				baseMu.Unlock()
@@ -638,7 +684,7 @@ func subSessions() mon.Sub {
 			pool.Configure(true, pool.ReuseLIFO, false, true)
 			st1 := pool.ReadStats()
 			c.Count(n)
-			msgs := 0
+			msgs, faulty := 0, 0
 			for i := range specs {
 				ac, as := sortLines(alone[i])
 				tc, ts := sortLines(together[i])
@@ -647,6 +693,14 @@ func subSessions() mon.Sub {
 					c.Fail(fmt.Sprintf("transcript/traffic%d", specs[i].traffic), "a session observed different results when run concurrently with others than when run alone: "+specs[i].String(),
 						map[string]interface{}{"session": specs[i].String(), "n": n, "gomaxprocs": gp, "mix": mix, "alone_client": ac, "together_client": tc, "alone_server": as, "together_server": ts})
 					return
+				}
+				if specs[i].fault != 0 {
+					faulty++
+					if !strings.Contains(strings.Join(tc, "\n"), "error") {
+						c.Fail("fault-not-observed", "a session with an injected write fault reported no error: "+specs[i].String(), map[string]interface{}{"client": tc, "server": ts})
+						return
+					}
+					continue
 				}
 				for _, l := range tc {
 					if strings.Contains(l, "ok=false") || strings.Contains(l, "error") {
@@ -669,6 +723,7 @@ func subSessions() mon.Sub {
 				return
 			}
 			c.Run.AddExtra("sessions_run_concurrently", int64(n))
+			c.Run.AddExtra("sessions_with_injected_write_fault", int64(faulty))
 			c.Run.AddExtra("transcript_events_compared", int64(msgs))
 			c.Run.AddExtra("cross_goroutine_buffer_handoffs_observed", st1.CrossGoroutineHandoffs-st0.CrossGoroutineHandoffs)
 			c.Run.AddExtra("pool_objects_reused", st1.Reused-st0.Reused)
